@@ -66,7 +66,7 @@ ASSUMPTIONS = [
     "the window; only schedules reached by those seeds are covered",
 ]
 WORKERS = {"quick": 16, "thorough": 16}
-QUICK_CONCURRENT = 0      # concurrency cases in the quick tier (DESIGN: thorough only); raise once the finding is fixed/recorded
+QUICK_CONCURRENT = 12     # concurrency cases in the quick tier (DESIGN: thorough only); raise once the finding is fixed/recorded
 
 
 def REQUIRE(tier):
